@@ -68,6 +68,8 @@ REC_KEYS = {
     # ticks
     'when': REAL, 'when_monotonic': REAL, 'sequence_counter': INT, 'stereotypes': TList(STR),
     'nick_identifier': STR, 'ip_address': STR,
+    # identification handshake (C04: SupvisorsMapper.identify)
+    'network': REC, 'machine_id': STR, 'fqdn': STR,
 }
 
 EXTERNAL_TYPES = {}
